@@ -372,11 +372,11 @@ def check_case(case):
 VALID_NAMES = ["x-verif-a", "x-verif-b", "new-type", "abc", "x-a1-b2", "verif9", "a-b-c-d"]
 BUILTIN_NAMES = ["identity", "file", "statement", "archive-ext", "indicator", "url", "tlp", "bundle", "marking-definition"]
 INVALID_NAMES = ["X-Upper", "x_under", "9lead", "-lead", "x--double", "a--", "ab", "a", "x-é", "x verif", "trail-", "x-", "a" * 251, "x.dot", "", "x-verif-A",
-                 "a1-", "ab-", "9x9", "x---y", "abc--def-ghi"]
+                 "a1-", "ab-", "9x9", "x---y", "abc--def-ghi", "x-nl\n", "abc\n"]
 VALID_PROPS = [[("prop_a", "string-required"), ("prop_b", "integer")], [("prop_a", "string-required")], [("x_foo", "string"), ("prop_a", "string-required")],
                [("prop_a", "string-required"), ("owner_ref", "ref")]]
 BAD_PROPS = [[("Prop", "string")], [("a-b", "string")], [("a b", "string")], [("9ab", "string")], [("_ab", "string")], [("ab", "string")], [("p" * 251, "string")],
-             [("é_prop", "string")], [("aB", "string")], [("some_ref", "string")], [("some_refs", "list-string")], [("prop_a", "string-required"), ("b_C", "integer")]]
+             [("é_prop", "string")], [("aB", "string")], [("some_ref", "string")], [("some_refs", "list-string")], [("prop_a", "string-required"), ("b_C", "integer")], [("foo\n", "string")], [("prop_a", "string-required"), ("prop_b\n", "integer")]]
 
 
 @st.composite
